@@ -55,6 +55,12 @@ def observe(case, rng):
         kw["forwarder_headers"] = "" if case["fh"] == "empty" else "*"
     if case["ssh"] == "empty":
         kw["secure_scheme_headers"] = {}
+    if case.get("tls"):
+        # the listener terminates TLS itself (certfile / keyfile configured); the scripted sockets carry plain bytes, the
+        # workers' wrap step is the identity for the run
+        repo = os.environ.get("VERIF_REPO", "/repo")
+        kw["certfile"] = os.path.join(repo, "examples", "server.crt")
+        kw["keyfile"] = os.path.join(repo, "examples", "server.key")
     cfg = drv.make_cfg(**kw)
     environs = []
 
@@ -94,7 +100,14 @@ def observe(case, rng):
         # it must not leak into this connection
         drv.serve(case["wk"], cfg, [b"PROXY TCP4 1.2.3.4 5.6.7.8 1111 2222\r\nGET /other HTTP/1.1\r\nHost: h\r\n\r\n"], app,
                   peer=("10.0.0.1", 6001) if case["pa"] != "none" else "", worker=w, eof_dispatch=True)
-    r = drv.serve(case["wk"], cfg, segs, app, peer=peer, worker=w, eof_dispatch=True)
+    import gunicorn.sock as gsock
+    saved_wrap = gsock.ssl_wrap_socket
+    if case.get("tls"):
+        gsock.ssl_wrap_socket = lambda sock_, conf_: sock_
+    try:
+        r = drv.serve(case["wk"], cfg, segs, app, peer=peer, worker=w, eof_dispatch=True)
+    finally:
+        gsock.ssl_wrap_socket = saved_wrap
     obs = {"out": "reject", "scheme": "http", "sn": False, "addr": "peer", "merged": []}
     env = None
     for e in environs:
@@ -125,7 +138,7 @@ def observe(case, rng):
 
 def c08(ctx):
     rng = ctx.rng
-    for prod in ["A", "B"] + ([] if ctx.quick else ["B3"]):
+    for prod in ["A", "B", "T"] + ([] if ctx.quick else ["B3"]):
         cfg = os.path.join(OUT, "cfg", "HeaderMap_%s.cfg" % prod)
         tlc.write_cfg(cfg, spec="Spec", constants={"Dev": set(), "Product": prod}, invariants=["DesignSatisfiesEnvelope"])
         r = tlc.run("HeaderMap", cfg, name="HeaderMap_" + prod, workers=8, timeout=1800)
@@ -150,6 +163,8 @@ def c08(ctx):
     if ctx.quick:
         cb = rng.sample(cb, 2500)
     cases += cb
+    ct = emit("T")
+    cases += ct if not ctx.quick else rng.sample(ct, min(len(ct), 800))
     if not ctx.quick:
         c3 = emit("B3")
         cases += rng.sample(c3, 8000)
@@ -175,7 +190,7 @@ def c08(ctx):
             if ndrift <= 5:
                 ctx.note_drift("HeaderMap model not followed: case=%s obs=%s" % (c, t["obs"]))
             continue
-        sig = "C08/%s/wk=%s,idx=%d,hm=%s" % (v, c["wk"] if "Proxy" in v else "*", c["idx"], c["hm"])
+        sig = "C08/%s/wk=%s,idx=%d,hm=%s%s" % (v, c["wk"] if "Proxy" in v else "*", c["idx"], c["hm"], ",tls" if c.get("tls") else "")
         ctx.violation(sig, "%s: case=%s obs=%s request=%r" % (v, c, t["obs"], m["request"][:300]), {"trace": t, "meta": m})
     if ndrift > 5:
         ctx.note_drift("... %d drifting cases in total" % ndrift)
